@@ -11,7 +11,7 @@ import time
 
 VERIF = os.path.dirname(os.path.dirname(os.path.abspath(__file__)))
 REPO = os.environ.get("VERIF_REPO", "/repo")
-CACHE = os.path.join(VERIF, ".cache")
+CACHE = os.environ.get("VERIF_CACHE") or os.path.join(VERIF, ".cache")
 DRIVER_DIR = os.path.join(VERIF, "driver")
 DRIVER_BIN = os.path.join(DRIVER_DIR, "target", "release", "mirfacts")
 
